@@ -52,7 +52,7 @@ def run(ctx):
     res.extra["interleaving_steps"] = steps
     # E1 histories rich in registrations, nick changes and endings (ownership via I6/I7 + model)
     results, cover, shapes = common.e1_check(
-        ctx, res, PROFILE, n_quick=32, n_thorough=480, steps=150, steps_thorough=300,
+        ctx, res, PROFILE, n_quick=32, n_thorough=1920, steps=150, steps_thorough=300,
         relevant=lambda t: t[0] == "nick",
         nontrivial_rule="")
     res.rule = ("(a) enumeration of command interleavings: 2-3 connections with scripts over {PASS good/bad, NICK x/y, USER, "
